@@ -32,10 +32,41 @@ WATCH = ["basana.core.dispatcher", "basana.core.helpers"]
 US = datetime.timedelta(microseconds=1)
 
 
+TZS = [{"TZ": "UTC"}, {"TZ": "XXX-3"}, {"TZ": "EST5EDT"}, {"TZ": "XYZ-5:30"}]
+
+
 def plan(prop: str, tier: str) -> Plan:
+    # every shard is an interpreter with its own process time zone (the dispatcher's clock must be UTC regardless)
     if tier == "quick":
-        return Plan(shards=4, cases_per_shard=120, timeout_s=600)
-    return Plan(shards=16, cases_per_shard=1200, timeout_s=3000)
+        return Plan(shards=4, cases_per_shard=120, timeout_s=600, shard_env=TZS)
+    return Plan(shards=16, cases_per_shard=1200, timeout_s=3000, shard_env=TZS)
+
+
+def check_real_clock(res: ShardResult) -> None:
+    """The virtual-time scenarios substitute basana.core.dt.utc_now; the real one is checked here, bracketed by two
+    readings of the system clock (no deadline involved), under the shard's process time zone."""
+    import time as _time
+    import os
+    import basana.core.dt as bdt
+    from basana.core import dispatcher
+    d = dispatcher.realtime_dispatcher()
+    for _ in range(200):
+        t0 = _time.time()
+        u = bdt.utc_now()
+        n = d.now()
+        t1 = _time.time()
+        res.count("real_clock_readings")
+        for name, val in (("utc_now()", u), ("RealtimeDispatcher.now()", n)):
+            if val.tzinfo is None or val.utcoffset() != datetime.timedelta(0):
+                res.violate(Violation("C15", "clock_not_utc", f"{name} returned {val!r}", scenario={"real_clock": True}))
+                return
+            ts = val.timestamp()
+            if not (t0 - 0.001 <= ts <= t1 + 0.001):
+                res.violate(Violation("C15", "clock_is_not_current_utc",
+                                      f"{name} = {val.isoformat()} but the system clock read {t0:.3f}..{t1:.3f} "
+                                      f"(process TZ={os.environ.get('TZ')}): items would be dispatched {t0 - ts:+.0f}s off",
+                                      scenario={"real_clock": True}))
+                return
 
 
 def gen(r) -> Dict[str, Any]:
@@ -334,6 +365,7 @@ def run_shard(ctx: Context, res: ShardResult) -> None:
     sen = sentinel.Sentinel(WATCH, lines=False)
     sen.start()
     try:
+        check_real_clock(res)
         for i in ctx.case_ids():
             if ctx.out_of_time():
                 res.errors.append("ran out of time")
@@ -346,7 +378,10 @@ def run_shard(ctx: Context, res: ShardResult) -> None:
 
 
 def replay(prop: str, scenario: Dict[str, Any], res: ShardResult) -> None:
-    evaluate(scenario, res)
+    if scenario.get("real_clock"):
+        check_real_clock(res)
+    else:
+        evaluate(scenario, res)
 
 
 def finalize(prop: str, tier: str, merged: ShardResult) -> Dict[str, Any]:
